@@ -4,6 +4,7 @@ CONSTANTS
   SMRoles <- MCRoles
   SMKeys <- MCKeys
   SMDamage <- MCDamage
+  SMDurs <- MCDurs
   SMJunk <- MCJunk
 VIEW SlotsView
 INVARIANTS RefreshKeepsRole InvNoRevival InvOnlyOwn InvOutcome
